@@ -117,6 +117,15 @@ static auto make_o() { return parser(oroot, terms('n', 'v', '+'), nterms(oroot),
     oroot(oroot, '+', oroot) >= [](std::optional<int> a, skip, std::optional<int> b) { return a && b ? std::optional<int>(*a + *b) : std::optional<int>(); })); }
 static auto make_sv() { return parser(svroot, terms(sv_word), nterms(svroot), rules(svroot(sv_word))); }
 
+// seventh grammar: a term whose automaton passes an accepting state, reads on and then dies ("12." for [0-9]+(\.[0-9]+)?): the term's value is its functor
+// applied to the longest accepted prefix, and the bytes read beyond it belong to the next term
+constexpr char dec_pat[] = "[0-9]+(\\.[0-9]+)?"; constexpr regex_term<dec_pat> decimal("decimal");
+constexpr nterm<std::string> sentence("sentence");
+static auto make_d() { return parser(sentence, terms(decimal, '.'), nterms(sentence), rules(
+    sentence(decimal) >= [](std::string_view d) { return "[" + std::string(d) + "]"; },
+    sentence(sentence, '.') >= [](std::string&& s, skip) { return s + "."; },
+    sentence(sentence, decimal) >= [](std::string&& s, std::string_view d) { return s + "[" + std::string(d) + "]"; })); }
+
 int main(int argc, char** argv) {
     int n = argc > 1 ? std::atoi(argv[1]) : 5;
     static const auto p = make_p();
@@ -173,6 +182,28 @@ int main(int argc, char** argv) {
             if (!thrown.empty()) { ++fails; if (first.empty()) first = "deep right recursion, " + std::to_string(len) + " tokens: parse threw " + thrown; }
             else if (!r || *r != want) { ++fails; if (first.empty()) first = "deep right recursion, " + std::to_string(len) + " tokens: the functors did not receive their own children's values (result differs from the reversed input" + (r ? " at position " + std::to_string(std::mismatch(r->begin(), r->end(), want.begin(), want.end()).first - r->begin()) : std::string(", empty")) + ")"; }
             else ++accepted;
+        }
+    }
+    {   // grammar 7 on every input up to length 6
+        static const auto d = make_d();
+        std::vector<std::string> in7{""}; for (size_t lo = 0, l = 0; l < 6; ++l) { size_t hi = in7.size(); for (size_t i = lo; i < hi; ++i) for (char c : {'1', '2', '.', ' '}) in7.push_back(in7[i] + c); lo = hi; }
+        for (const std::string& in : in7) {
+            ++cases; ++checks;
+            // reference: longest-match tokens, then sentence -> decimal (decimal | '.')*
+            std::string want; bool wok = true; size_t i = 0; int ntok = 0;
+            while (wok) {
+                while (i < in.size() && in[i] == ' ') ++i;
+                if (i >= in.size()) break;
+                if (in[i] == '.') { if (ntok == 0) { wok = false; break; } want += "."; ++i; ++ntok; continue; }
+                size_t e = i; while (e < in.size() && (in[e] == '1' || in[e] == '2')) ++e;
+                if (e == i) { wok = false; break; }
+                if (e + 1 < in.size() && in[e] == '.' && (in[e + 1] == '1' || in[e + 1] == '2')) { size_t f = e + 1; while (f < in.size() && (in[f] == '1' || in[f] == '2')) ++f; e = f; }
+                want += "[" + in.substr(i, e - i) + "]"; i = e; ++ntok;
+            }
+            if (ntok == 0) wok = false;
+            auto r = d.parse(string_buffer(std::string(in)));
+            if (r.has_value() != wok || (wok && *r != want)) { ++fails; if (first.empty()) first = "grammar 7 (term whose automaton reads past its last accepting state) input '" + in + "': got " + (r ? *r : std::string("empty")) + " expected " + (wok ? want : std::string("empty")); }
+            if (wok) ++accepted;
         }
     }
     {   // grammar 6 on every input up to length 4
